@@ -23,6 +23,13 @@ Chains: get_dual -> get_dual -> get_dual on staircase / dropped-face / MPAS-regi
 closed ones; every grid of the chain is judged against ITS OWN parent (the parent's node_face rows must be,
 as multisets, the transpose of its face_node table computed by C03's proved Lean model).  Grids with a
 source-supplied node_face_connectivity whose padding sits anywhere in the rows are judged the same way.
+Coordinate form is a random dimension of every case: lon/lat only, supplied Cartesian nodes at unit
+radius, at one radius drawn log-uniformly from 1e-3..1e7 (incl. 6371.229 and 6371229), with per-node radii
+0.9..1.1, face centres not supplied / as lon-lat / as Cartesian at their own radius, with or without
+normalize_cartesian_coordinates() before get_dual.  The ring / counter-clockwise oracle works on directions
+(the driver scales every vector to unit length); the obligation "the implementation is radius-invariant" is
+anchored to the Lean theorem order_scale_invariant (and asis_unit_normal_helper_wrong for a projection that
+omits the division by |c|^2; corpus/C18/bipyramid4-earth-radius.json is its regression case).
 corpus/C18/antiprism5-star.json is the minimised failure of the snapshot (fixed by c1960934);
 corpus/C18/bipyramid5-supplied-node-face.json that of the prefix gather (fixed by b97cc1ce).
 """
@@ -353,19 +360,25 @@ def judge_grid(ctx, g, inp, key, m=None, shrink=True, closed=None, variant=""):
             import uxarray as ux
 
             sinp = mesh_input(sub, inp.get("tag", "") + "+star")
+            sc = sub_coords(inp.get("coords"), sorted({v for i in idx for v in m.faces[i]}))
+            if sc:
+                sinp["coords"] = sc
             n0 = len(ctx.failures)
-            judge_grid(ctx, meshes.to_grid(sub, ux), sinp, ("star", sub.rows()), m=sub, shrink=False, closed=False)
+            judge_grid(ctx, build_grid(sub, ux, sc), sinp, ("star", sub.rows(), repr(sc)[:100]), m=sub, shrink=False, closed=False,
+                       variant=variant)
             if len(ctx.failures) > n0:
                 return None
-        asis = asis1 = None
+        asis = asis1 = helper = None
         if len(NF) <= SPEC_MAX_NODES:
             asis = common.Tok(d.ask("C18.model", 0, enc_geo(NF, nodes, cents))).rows()
             asis1 = common.Tok(d.ask("C18.model", 1, enc_geo(NF, nodes, cents))).rows()
+            helper = common.Tok(d.ask("C18.model", 4, enc_geo(NF, nodes, cents))).rows()
         what = ("dual face corners are not " + {"ring": "a ring of edge-sharing primal faces", "ccw": "in counter-clockwise order",
                                                  "count": "one per node of valence>=3", "rows": "exactly the node's faces"}.get(cl[0], cl[0])
                 + f" (clauses {cl}; nodes ring_bad={v['ring_bad'][:4]} ccw_bad={v['ccw_bad'][:4]})")
         ctx.fail(SIG + "/" + "+".join(cl), what, inp,
-                 dict(obs, verdict=v, equals_model_of_snapshot=(asis == D), equals_model_with_prefix_gather=(asis1 == D)),
+                 dict(obs, verdict=v, equals_model_of_snapshot=(asis == D), equals_model_with_prefix_gather=(asis1 == D),
+                      equals_model_with_unit_normal_projection=(helper == D)),
                  dict(repaired_model=model, equals_repaired_model=(model == D)), cl)
         return None
     # correspondence with the (repaired) model: exact table
@@ -384,9 +397,13 @@ def judge_grid(ctx, g, inp, key, m=None, shrink=True, closed=None, variant=""):
                  dict(n_node=int(dual.n_node), lon=dl.tolist()[:8], lat=dt.tolist()[:8]),
                  dict(n_face=int(g.n_face), face_lon=flon.tolist()[:8], face_lat=flat.tolist()[:8]), ["dual_nodes"])
     if m is not None:
-        cen = np.array([m.xyz[f].mean(axis=0) for f in m.faces])
-        cen /= np.linalg.norm(cen, axis=1, keepdims=True)
+        if (inp.get("coords") or {}).get("face"):
+            cen = centroids(m)  # the centres that were supplied (as directions)
+        else:  # normalised mean of the corner coordinates the grid holds (any radius)
+            cen = np.array([nodes[f].mean(axis=0) for f in m.faces])
+            cen /= np.linalg.norm(cen, axis=1, keepdims=True)
         dx = xyz_of(dual, "node")
+        dx = dx / np.linalg.norm(dx, axis=1, keepdims=True)
         if dx.shape != cen.shape or np.max(np.linalg.norm(dx - cen, axis=1)) > 1e-9:
             ctx.fail(SIG + "/dual-node-position", "dual node is not at the (normalised mean-of-corners) centre of its face", inp,
                      dict(dual_xyz=dx.tolist()[:6]), dict(centres=cen.tolist()[:6]), ["dual_nodes"])
@@ -458,6 +475,76 @@ def judge_data(ctx, g, dualD, inp, key, closed, all3, forced=None):
             ctx.fail(f"C18/UxDataArray.get_dual/size/{centre}", f"data length along {swapped} differs from the dual grid's {swapped}", dinp, obs, None, ["dual_data_size"])
 
 
+EARTH = [6371.229, 6371229.0]  # km, m
+
+
+def draw_radius(rng):
+    u = rng.random()
+    return rng.choice(EARTH) if u < 0.4 else 10 ** rng.uniform(-3, 7)
+
+
+def draw_coords(rng, m):
+    """the form in which node / face-centre coordinates are supplied — a random dimension of every case"""
+    u = rng.random()
+    if u < 0.3:
+        c = dict(node="lonlat")
+    elif u < 0.42:
+        c = dict(node="xyz-unit", radius=1.0)
+    elif u < 0.85:
+        c = dict(node="xyz-radius", radius=draw_radius(rng))
+    else:
+        c = dict(node="xyz-mixed-radii", radius=[rng.uniform(0.9, 1.1) for _ in range(m.n_node)])
+    v = rng.random()
+    if v < 0.6:
+        c["face"] = None
+    elif v < 0.72:
+        c["face"] = "lonlat"
+    else:
+        c["face"] = "xyz"
+        c["face_radius"] = 1.0 if rng.random() < 0.3 else draw_radius(rng)
+    c["normalize"] = rng.random() < 0.3
+    return c
+
+
+def centroids(m):
+    cen = np.array([m.xyz[f].mean(axis=0) for f in m.faces])
+    return cen / np.linalg.norm(cen, axis=1, keepdims=True)
+
+
+def coords_tag(c):
+    if not c or (c["node"] == "lonlat" and not c.get("face") and not c.get("normalize")):
+        return ""
+    return "[coords=" + c["node"] + ("+face-" + c["face"] if c.get("face") else "") + ("+normalized" if c.get("normalize") else "") + "]"
+
+
+def sub_coords(c, used):
+    if c and isinstance(c.get("radius"), list):
+        return dict(c, radius=[c["radius"][v] for v in used])
+    return c
+
+
+def build_grid(m, ux, coords=None, node_face=None):
+    """the Grid for an abstract mesh with coordinates supplied in the drawn form"""
+    kw = {}
+    c = coords or dict(node="lonlat")
+    if c["node"] != "lonlat":
+        rad = np.asarray(c["radius"], dtype=float) * np.ones(m.n_node)
+        xyz = m.xyz * rad[:, None]
+        kw.update(node_x=xyz[:, 0].copy(), node_y=xyz[:, 1].copy(), node_z=xyz[:, 2].copy())
+    if c.get("face"):
+        cen = centroids(m)
+        kw.update(face_lon=np.degrees(np.arctan2(cen[:, 1], cen[:, 0])), face_lat=np.degrees(np.arcsin(np.clip(cen[:, 2], -1, 1))))
+        if c["face"] == "xyz":
+            fr = float(c.get("face_radius", 1.0))
+            kw.update(face_x=fr * cen[:, 0], face_y=fr * cen[:, 1], face_z=fr * cen[:, 2])
+    if node_face is not None:
+        kw["node_face_connectivity"] = np.array(node_face, dtype=np.int64)
+    g = meshes.to_grid(m, ux, **kw)
+    if c.get("normalize"):
+        g.normalize_cartesian_coordinates()
+    return g
+
+
 def scramble_padding(rng, NF, keep_order=True):
     """the same node_face table with the padding of every row moved to random positions
     (as a source-supplied table such as MPAS cellsOnVertex may have it)"""
@@ -474,21 +561,31 @@ def scramble_padding(rng, NF, keep_order=True):
     return out
 
 
-def judge(ctx, m, tag, data=True, forced=None, depth=1, node_face=None):
+def judge(ctx, m, tag, data=True, forced=None, depth=1, node_face=None, coords="draw"):
     """one root mesh: Grid.get_dual (and UxDataArray.get_dual), then get_dual of the result, ... `depth`
     times; every grid of the chain is judged against its own parent"""
     import uxarray as ux
 
     inp = mesh_input(m, tag)
-    kw = {}
+    if coords == "draw":
+        coords = draw_coords(ctx.rng, m)
     variant = ""
     if node_face is not None:
         inp["node_face"] = node_face
-        kw["node_face_connectivity"] = np.array(node_face, dtype=np.int64)
         variant = "[supplied-node_face]"
         ctx.hit("supplied-node_face(padding anywhere)")
-    g = meshes.to_grid(m, ux, **kw)
-    key = (tag, m.rows(), [round(float(x), 9) for x in m.lon[:6]], node_face)
+    if coords:
+        inp["coords"] = coords
+        variant += coords_tag(coords)
+        ctx.hit("coords:node=" + coords["node"])
+        ctx.hit("coords:face=" + str(coords.get("face")))
+        if coords.get("normalize"):
+            ctx.hit("coords:normalize_cartesian_coordinates-before-get_dual")
+        r0 = coords.get("radius")
+        if isinstance(r0, float) and r0 in EARTH:
+            ctx.hit("coords:earth-radius-km-or-m")
+    g = build_grid(m, ux, coords, node_face)
+    key = (tag, m.rows(), [round(float(x), 9) for x in m.lon[:6]], node_face, repr(coords)[:200])
     cur, cur_m, closed, first = g, m, bool(m.closed), None
     for k in range(1, depth + 1):
         NFk = cur.node_face_connectivity.values
@@ -609,7 +706,7 @@ def run(ctx):
 def replay_input(ctx, inp, tag):
     m = mesh_from_input(inp)
     judge(ctx, m, tag, data="data_centre" in inp, forced=inp if "data_centre" in inp else None,
-          depth=int(inp.get("chain_depth", 1)), node_face=inp.get("node_face"))
+          depth=int(inp.get("chain_depth", 1)), node_face=inp.get("node_face"), coords=inp.get("coords"))
 
 
 def replay(ctx, rp):
